@@ -187,6 +187,7 @@ type QRunner struct {
 	maxPagesUsed uint
 	callInj0     int // injected failures before the current writer/ACK call
 	qobs         *qObserver
+	unconfirmed  bool // a call failed under an injected failure and no write transaction has succeeded since
 }
 
 // NewQRunner creates file, delegate and queue.
@@ -296,14 +297,24 @@ func errChain(err error) string {
 }
 
 func (r *QRunner) mayFail() bool {
-	if r.O.Faults && r.Disk.Injected() > r.callInj0 {
+	if r.faultHit() {
 		r.Counters["call-failed-by-fault"]++
 		return true
 	}
 	return r.bounded()
 }
 
-func (r *QRunner) faultHit() bool { return r.O.Faults && r.Disk.Injected() > r.callInj0 }
+func (r *QRunner) faultHit() bool {
+	hit := r.O.Faults && r.Disk.Injected() > r.callInj0
+	if hit {
+		// The transaction of the failed call may have failed by its final sync only: its header is
+		// restored at the latest when the next write transaction begins (C08 allows the file to show
+		// that attempt completely until then). The model does not follow that alternative; steps that
+		// would look at the file through a reopen without an intervening write transaction are skipped.
+		r.unconfirmed = true
+	}
+	return hit
+}
 
 func (r *QRunner) writer() (*pq.Writer, *Violation) {
 	if r.W == nil {
@@ -492,7 +503,7 @@ func (r *QRunner) closeQueue() *Violation {
 }
 
 func (r *QRunner) reopen(file bool) *Violation {
-	if r.O.Faults && !r.Disk.FaultOver() {
+	if r.O.Faults && (!r.Disk.FaultOver() || r.unconfirmed) {
 		r.count("noop")
 		return nil
 	}
@@ -635,6 +646,9 @@ func (r *QRunner) Step(s *QStep) *Violation {
 		if r.writeFailed && r.FlushedCB > r.Certain {
 			r.count("flush-after-failure")
 		}
+		if r.FlushedCB > c.FlushedB4 {
+			r.unconfirmed = false // a write transaction committed
+		}
 		r.Certain = len(r.Events)
 		if r.FlushedCB != len(r.Events) {
 			return violationf("q-flush-callback", r.step, "Flush returned nil with %d completed events, Flushed callbacks reported %d in total", len(r.Events), r.FlushedCB)
@@ -710,6 +724,7 @@ func (r *QRunner) Step(s *QStep) *Violation {
 			return violationf("q-ack-callback", r.step, "ACKed callbacks reported %d events in total, %d were ACKed", r.AckedCB, r.Acked)
 		}
 		r.count("ack")
+		r.unconfirmed = false // a write transaction committed
 		if r.writeFailed {
 			r.count("ack-after-write-failure")
 		}
@@ -894,6 +909,7 @@ func (r *QRunner) probe() *Violation {
 		v.Item = r.step
 		return v
 	}
+	r.unconfirmed = false // DrainCopy begins a write transaction (NewStandaloneDelegate) before it reads
 	D := len(drained)
 	// content of the drainable range (C05/C06: FIFO, byte identical, starts at first un-ACKed)
 	if r.Acked+D > len(r.Events) {
